@@ -3,7 +3,7 @@
 M=$1; shift
 git -C /repo apply $M/patch.diff || { echo "APPLY-FAILED $M"; exit 2; }
 for P in "$@"; do
-  out=$(cd /verif && ./check $P --tier quick 2>/dev/null | grep -E "VIOLATION|KNOWN" | cut -c1-160)
+  out=$(cd /verif && ./check $P --tier quick 2>/dev/null | grep -E "^VIOLATION" | cut -c1-160)
   if [ -z "$out" ]; then echo "MISSED $P $(basename $M)"; else echo "CAUGHT $P $(basename $M): $out"; fi
 done
 git -C /repo checkout -- .
